@@ -11,12 +11,28 @@
 
 #include <cstdio>
 #include <cstdlib>
+#if defined(JOHNMCFARLANE_CNL_VERIF)
+#include <type_traits>
+#endif
 
 namespace cnl {
     namespace _impl {
+#if defined(JOHNMCFARLANE_CNL_VERIF)
+        // verification hook: lets a harness observe (and escape from) terminal exits in-process
+        namespace verif {
+            using terminal_hook_t = void (*)(int kind, char const* message);  // kind: 0=abort, 1=unreachable
+            inline terminal_hook_t terminal_hook = nullptr;
+        }
+#endif
+
         template<class Result>
         [[noreturn]] constexpr auto abort(char const* message) noexcept -> Result
         {
+#if defined(JOHNMCFARLANE_CNL_VERIF)
+            if (!std::is_constant_evaluated() && verif::terminal_hook) {
+                verif::terminal_hook(0, message);
+            }
+#endif
             (void)std::fputs(message, stderr);
             (void)std::fputc('\n', stderr);
             std::abort();
